@@ -101,6 +101,9 @@ pub fn run_key(cx: &Cx, mask: u32, gen: &str, key: u64, rep: &mut Report) {
             let blen = lat[(key % l) as usize];
             let pdu = gen_pdu(&mut rng, plen, (key % 5) as usize);
             for case in 0..6 {
+                if crate::expired() {
+                    return;
+                }
                 let mut s = Sender::new(0x11 + case as u8);
                 let (label, primed) = label_case(&mut rng, case);
                 if primed {
@@ -142,6 +145,9 @@ pub fn run_key(cx: &Cx, mask: u32, gen: &str, key: u64, rep: &mut Report) {
                 let mut bufs: Vec<usize> = (0..=40).collect();
                 bufs.extend([100, 4097, 4098, 70000]);
                 for pos in 0..=plen + 2 {
+                    if crate::expired() {
+                        return;
+                    }
                     for b in &bufs {
                         let ctx = ContextFrag::new(key as u8 ^ 0xA5, rng.next() as u32, pos as u16);
                         let spec = CallSpec { func: Func::Frag, pdu: &pdu, frag_id: 0, ptype: 0, label: Label::ReUse, exts: None, ctx: Some(ctx), buf_len: *b };
@@ -360,6 +366,9 @@ pub fn run_key(cx: &Cx, mask: u32, gen: &str, key: u64, rep: &mut Report) {
             let remaining0 = plen.saturating_sub(ctx.len_pdu_frag() as usize);
             let mut calls = 0usize;
             loop {
+                if calls % 64 == 0 && crate::expired() {
+                    return;
+                }
                 let b = match mode {
                     0 => 7,
                     1 => 8,
